@@ -77,8 +77,8 @@ pub struct HistCfg {
     pub lang: LangId,
     pub gen: GenCfg,
     pub max_ops: usize,
-    /// weights of the op kinds: add, unrelated, permuted, renamed, context, reorder, existing
-    pub weights: [usize; 7],
+    /// weights of the op kinds: add, unrelated, permuted, renamed, context, reorder, existing, congruent-parents
+    pub weights: [usize; 8],
     pub namings: Vec<Naming>,
 }
 
@@ -93,7 +93,7 @@ impl HistCfg {
                 ..GenCfg::default()
             },
             max_ops: 6,
-            weights: [2, 2, 3, 3, 3, 2, 3],
+            weights: [2, 2, 3, 3, 3, 2, 3, 2],
             namings: vec![Naming::Alpha],
         }
     }
@@ -290,6 +290,83 @@ pub fn decode_hist_from(cfg: &HistCfg, chunks: &[Vec<u16>], naming_choice: u16, 
                 let i = push_add(Tm::leaf(o1.name, &a1), &mut ops, &mut terms, &mut n_terms);
                 let j = push_add(Tm::leaf(o2.name, &a2), &mut ops, &mut terms, &mut n_terms);
                 ops.push(HOp::Union(i, j));
+            }
+            7 => {
+                // two parents over the same names whose children (multi-slot leaves, one of them possibly symmetric, in
+                // different argument orders) are united afterwards: the parents become congruent through the children
+                let leaves: Vec<&OpSig> = sig
+                    .ops
+                    .iter()
+                    .filter(|o| {
+                        o.is_leaf()
+                            && (2..=3).contains(&o.fields.iter().filter(|f| matches!(f, Field::Slot)).count())
+                            && o.fields.iter().all(|f| matches!(f, Field::Slot))
+                            && cfg.gen.ops.as_ref().map(|v| v.contains(&o.name)).unwrap_or(true)
+                    })
+                    .collect();
+                let binary: Vec<&OpSig> = sig
+                    .ops
+                    .iter()
+                    .filter(|o| o.n_kids() == 2 && o.fields.iter().all(|f| matches!(f, Field::Kid(_))) && cfg.gen.ops.as_ref().map(|v| v.contains(&o.name)).unwrap_or(true))
+                    .collect();
+                if leaves.is_empty() || binary.is_empty() {
+                    let t = mk(&mut src);
+                    push_add(t, &mut ops, &mut terms, &mut n_terms);
+                    continue;
+                }
+                let o1 = leaves[src.pick(leaves.len())];
+                let o2 = leaves[src.pick(leaves.len())];
+                let par = binary[src.pick(binary.len())];
+                let k = o1.fields.len().min(o2.fields.len());
+                let mut pool: Vec<Name> = (0..cfg.gen.alphabet).collect();
+                let mut names = Vec::new();
+                for _ in 0..k.min(cfg.gen.max_fv) {
+                    let i = src.pick(pool.len());
+                    names.push(pool.remove(i));
+                }
+                let k = names.len();
+                let args = |n: usize, perm: &BTreeMap<Name, Name>| -> Vec<Name> { (0..n).map(|i| perm[&names[i % k]]).collect() };
+                let idp: BTreeMap<Name, Name> = names.iter().map(|n| (*n, *n)).collect();
+                let sg1 = random_perm(&names, &mut src);
+                let sg2 = random_perm(&names, &mut src);
+                let l1 = Tm::leaf(o1.name, &args(o1.fields.len(), &idp));
+                let l1s = Tm::leaf(o1.name, &args(o1.fields.len(), &sg1));
+                let l2 = Tm::leaf(o2.name, &args(o2.fields.len(), &sg2));
+                // the sibling child mentions one of the names (anchors the argument order)
+                let sib_leaf: Option<&OpSig> = sig.ops.iter().find(|o| o.is_leaf() && o.fields.len() == 1 && matches!(o.fields[0], Field::Slot));
+                let sib = match sib_leaf {
+                    Some(o) => Tm::leaf(o.name, &[names[src.pick(k)]]),
+                    None => l1.clone(),
+                };
+                let mk_parent = |child: &Tm, first: bool| -> Tm {
+                    let mut a = Vec::new();
+                    let mut kid = 0;
+                    for f in &par.fields {
+                        if let Field::Kid(nb) = f {
+                            // binders of the parent (if any) bind names outside the alphabet
+                            let bs: Vec<Name> = (0..*nb).map(|b| 45 + kid as Name * 2 + b as Name).collect();
+                            let c = if (kid == 0) == first { child.clone() } else { sib.clone() };
+                            a.push(Arg::K(bs, c));
+                            kid += 1;
+                        }
+                    }
+                    Tm { op: par.name.to_string(), args: a }
+                };
+                let first = src.coin(1, 2);
+                let p1 = push_add(mk_parent(&l1, first), &mut ops, &mut terms, &mut n_terms);
+                let p2 = push_add(mk_parent(&l2, first), &mut ops, &mut terms, &mut n_terms);
+                let _ = (p1, p2);
+                let i1 = push_add(l1, &mut ops, &mut terms, &mut n_terms);
+                if src.coin(2, 3) {
+                    let i1s = push_add(l1s, &mut ops, &mut terms, &mut n_terms);
+                    ops.push(HOp::Union(i1, i1s));
+                }
+                let i2 = push_add(l2, &mut ops, &mut terms, &mut n_terms);
+                if src.coin(1, 2) {
+                    ops.push(HOp::Union(i1, i2));
+                } else {
+                    ops.push(HOp::Union(i2, i1));
+                }
             }
             _ => {
                 if n_terms >= 2 {
